@@ -127,23 +127,12 @@ theorem parseItems_all (w : World) (child : ChildLoader) (P : Rec → Prop) (Q :
         · exact ih _ _ _ h hq hp
         · split at h
           · exact ih _ _ _ h hq hp
-          · split at h
-            · refine ih _ _ _ h (hQ _ _ hq) ?_
-              intro x hx
-              simp only [List.mem_append] at hx
-              rcases hx with hx | hx
-              · exact hp x hx
-              · exact p1 x hx
-            · split at h
-              · cases h
-              · rename_i r2 h2
-                have p2 := hchild _ _ _ (hQ _ _ hq) h2
-                refine ih _ _ _ h (hQ _ _ hq) ?_
-                intro x hx
-                simp only [List.mem_append] at hx
-                rcases hx with hx | hx
-                · exact hp x hx
-                · exact p2 x hx
+          · refine ih _ _ _ h (hQ _ _ hq) ?_
+            intro x hx
+            simp only [List.mem_append] at hx
+            rcases hx with hx | hx
+            · exact hp x hx
+            · exact p1 x hx
 
 /-! ## T8.2: an override reaches every nested import -/
 
@@ -377,24 +366,13 @@ theorem parseItems_handed (w : World) (child : ChildLoader) (d : Nat) (hchild : 
           exact ih _ _ _ h (by intro h0; omega) hp
         · split at h
           · exact ih _ _ _ h (by intro h0; cases h0) hp
-          · split at h
-            · refine ih _ _ _ h (by intro h0; cases h0) ?_
-              intro x hx
-              simp only [List.mem_append] at hx
-              rw [parentEncodingOf_append st.sheet .imp (Or.inr (by intro e; simp))]
-              rcases hx with hx | hx
-              · exact hp x hx
-              · exact p1 x hx
-            · split at h
-              · cases h
-              · rename_i r2 h2
-                have p2 := hchild _ _ _ h2
-                refine ih _ _ _ h (by intro h0; cases h0) ?_
-                intro x hx
-                simp only [List.mem_append] at hx
-                rcases hx with hx | hx
-                · exact keep .imp (by intro e; simp) x hx
-                · exact p2 x hx
+          · refine ih _ _ _ h (by intro h0; cases h0) ?_
+            intro x hx
+            simp only [List.mem_append] at hx
+            rw [parentEncodingOf_append st.sheet .imp (Or.inr (by intro e; simp))]
+            rcases hx with hx | hx
+            · exact hp x hx
+            · exact p1 x hx
 
 theorem loadChild_depth (w : World) : ∀ fuel d, ChildHands (loadChild w fuel d) d := by
   intro fuel
@@ -471,15 +449,7 @@ theorem parseItems_mono (w : World) (c1 c2 : ChildLoader)
           split
           · rename_i hy; rw [if_pos hy] at h; exact ih _ _ _ h
           · rename_i hy; rw [if_neg hy] at h
-            split
-            · rename_i hz; rw [if_pos hz] at h; exact ih _ _ _ h
-            · rename_i hz; rw [if_neg hz] at h
-              cases h2 : c1 { st.sheet with rules := st.sheet.rules ++ [.imp] } u with
-              | error e => rw [h2] at h; cases h
-              | ok r2 =>
-                rw [h2] at h
-                rw [hc _ _ _ h2]
-                exact ih _ _ _ h
+            exact ih _ _ _ h
 
 theorem loadChild_fuel_succ (w : World) :
     ∀ fuel d s u r, loadChild w fuel d s u = .ok r → loadChild w (fuel + 1) d s u = .ok r := by
@@ -748,13 +718,7 @@ theorem parseItems_err (w : World) (child : ChildLoader)
         · exact ih _ _ _ h
         · split at h
           · exact ih _ _ _ h
-          · split at h
-            · exact ih _ _ _ h
-            · split at h
-              · rename_i e2 h2
-                simp only [Except.error.injEq] at h; subst h
-                exact hc _ _ _ h2
-              · exact ih _ _ _ h
+          · exact ih _ _ _ h
 
 theorem loadChild_err (w : World) :
     ∀ fuel d s u e, loadChild w fuel d s u = .error e → e = .outOfFuel := by
